@@ -94,10 +94,10 @@ Fixpoint regex_to_range_map (fuel : nat) (b : bindings) : regex -> result (rmap 
     | RString _ | RStar _ | RPlus _ | ROpt _ | RCat _ _ | REoi => Panic TagNotCharSet
     end.
 
-(* Regex::String: a chain of fresh states *)
+(* Regex::String: a chain of fresh states; the empty literal "" is one epsilon edge *)
 Fixpoint add_string (n : nfa) (s : list N) (cur cont : nat) : result nfa :=
   match s with
-  | [] => Ok n
+  | [] => add_empty_transition n cur cont
   | [c] => add_char_transition n cur c cont
   | c :: rest =>
       let (n1, next) := new_state n in
